@@ -41,6 +41,10 @@ def _pure(e, depth=0):
         return True      # an empty literal used as a default argument
     if isinstance(e, ast.Lambda):
         return True
+    if isinstance(e, ast.Call) and isinstance(e.func, ast.Name) and e.func.id in ('any', 'all') and len(e.args) == 1 and not e.keywords \
+            and isinstance(e.args[0], (ast.GeneratorExp, ast.ListComp)):
+        c = e.args[0]
+        return _pure(c.elt, depth + 1) and all(not g.is_async and _pure(g.iter, depth + 1) and all(_pure(i, depth + 1) for i in g.ifs) for g in c.generators)
     if isinstance(e, ast.Call):
         f = e.func
         if isinstance(f, ast.Name) and (f.id in PURE_CALLS or f.id[:1].isupper() or (f.id[:1] == '_' and f.id[1:2].isupper())):
@@ -57,6 +61,16 @@ def _free(e):
         if isinstance(n, ast.Lambda):
             b2 = bound | {a.arg for a in n.args.args + n.args.kwonlyargs}
             visit(n.body, b2)
+            return
+        if isinstance(n, (ast.GeneratorExp, ast.ListComp, ast.SetComp, ast.DictComp)):
+            b2 = set(bound)
+            for g in n.generators:
+                visit(g.iter, b2)
+                b2 |= {x.id for x in ast.walk(g.target) if isinstance(x, ast.Name)}
+                for i in g.ifs:
+                    visit(i, b2)
+            for part in ([n.key, n.value] if isinstance(n, ast.DictComp) else [n.elt]):
+                visit(part, b2)
             return
         if isinstance(n, ast.Name) and isinstance(n.ctx, ast.Load) and n.id not in bound:
             out.add(n.id)
@@ -164,10 +178,11 @@ class _RD:
                 out = self.block(st.body, e_body)
                 lp = self.loops.pop()
                 e_in = self.merge([e_in, out, env] + lp['continues'])
-            e_after = self.merge([e_in, env] + lp['breaks'])
+            # the else clause runs on exhaustion only; a break skips it
+            e_done = self.merge([e_in, env])
             if st.orelse:
-                e_after = self.block(st.orelse, e_after)
-            return e_after
+                e_done = self.block(st.orelse, dict(e_done))
+            return self.merge([e_done] + lp['breaks'])
         if isinstance(st, ast.While):
             e_in = dict(env)
             for _ in range(3):
@@ -177,12 +192,10 @@ class _RD:
                 lp = self.loops.pop()
                 e_in = self.merge([e_in, out, env] + lp['continues'])
             infinite = isinstance(st.test, ast.Constant) and bool(st.test.value)
-            e_after = self.merge(([] if infinite else [e_in]) + lp['breaks'])
-            if e_after is None:
-                return None
-            if st.orelse:
-                e_after = self.block(st.orelse, dict(e_after))
-            return e_after
+            e_done = None if infinite else e_in
+            if e_done is not None and st.orelse:
+                e_done = self.block(st.orelse, dict(e_done))
+            return self.merge([e_done] + lp['breaks'])
         if isinstance(st, ast.If):
             self.uses(st.test, env)
             e1 = self.block(st.body, dict(env))
@@ -347,5 +360,15 @@ def normalize_module(tree):
             total += c
             if not c:
                 break
+    # f(*(a, b)) -> f(a, b): left behind when a *args parameter of an inlined helper was substituted
+    for n in ast.walk(tree):
+        if isinstance(n, ast.Call) and any(isinstance(a, ast.Starred) and isinstance(a.value, ast.Tuple) for a in n.args):
+            new = []
+            for a in n.args:
+                if isinstance(a, ast.Starred) and isinstance(a.value, ast.Tuple):
+                    new.extend(a.value.elts)
+                else:
+                    new.append(a)
+            n.args = new
     ast.fix_missing_locations(tree)
     return total
